@@ -5,6 +5,11 @@ import pymc as pm
 import pytensor.tensor as pt
 from astropy.utils.decorators import deprecated_renamed_argument
 
+try:
+    from pytensor.graph.traversal import ancestors
+except ImportError:  # older pytensor versions
+    from pytensor.graph.basic import ancestors
+
 import thejoker.units as xu
 
 # Project
@@ -365,7 +370,25 @@ class JokerPrior:
             logp = []
             for par in sub_pars.values():
                 try:
-                    _logp = pm.logp(par, raw_samples[par.name]).eval()
+                    _logp = pm.logp(par, raw_samples[par.name])
+                    parents = [
+                        p
+                        for p in par_list
+                        if p is not par and p in ancestors([_logp])
+                    ]
+                    if parents:
+                        # this prior depends on other sampled parameters
+                        # (e.g. K on P and e): evaluate its density at the
+                        # values drawn in the same row instead of re-drawing
+                        # them
+                        from pytensor.graph.replace import vectorize_graph
+
+                        _val = par.type()
+                        _replace = {_val: pt.as_tensor_variable(raw_samples[par.name])}
+                        for p in parents:
+                            _replace[p] = pt.as_tensor_variable(raw_samples[p.name])
+                        _logp = vectorize_graph(pm.logp(par, _val), replace=_replace)
+                    _logp = _logp.eval()
                 except Exception:
                     logger.warning(
                         f"Cannot auto-compute log-prior value for parameter {par}"
